@@ -174,3 +174,15 @@ Theorem C12_source_signatures_shape :
   forallb (fun p => single_source_shape (snd p)) gen_signatures = true.
 Proof. exact tie_lifetimes_shape. Qed.
 
+(* code generic over S: Lengthen<T> / Shorten<T> gets S back from a lengthen-shorten round trip,
+   because the trait declarations, as regenerated from src/sequence.rs, bound the associated
+   types with the inverse trait AND the equality with Self *)
+Theorem C12_source_inverse_bounds :
+  gen_inverse_bounds = [("Lengthen", "Longer", "Shorten", Some "Shorter"); ("Shorten", "Shorter", "Lengthen", Some "Longer")]%string /\
+  inverse_eq_of "Lengthen" = inverse_bound_has_equality 0 /\
+  inverse_eq_of "Shorten" = inverse_bound_has_equality 1.
+Proof. exact tie_inverse_bounds. Qed.
+
+Theorem C12_roundtrip : forall v, (0 <= v <= 3)%Z -> roundtrip_typechecks v = true.
+Proof. exact roundtrip_ok. Qed.
+
